@@ -1,9 +1,9 @@
 //! Stream-level case generation shared by C05, C07 and C13.
 
-use vcore::gen::{self, Env, GenCfg, Index};
-use vcore::rval::{self, RVal};
-use vcore::spec::{Model, RetTy};
-use vcore::tape::Tape;
+use crate::gen::{self, Env, GenCfg, Index};
+use crate::rval::{self, RVal};
+use crate::spec::{Model, RetTy};
+use crate::tape::Tape;
 
 /// One representative per lexical class the grammar distinguishes.
 pub const ALPHABET: &[u8] = b"AEH*:;, \n?#12'\".e+";
